@@ -12,3 +12,8 @@ func vWriteFile(name string, content []byte) {
 	f.Write(content)
 	f.Close()
 }
+
+// VerifNewLogs returns the real file log store rooted at dir (the model file system in the engine, a temp dir natively).
+func VerifNewLogs(dir string) *fileLogs {
+	return &fileLogs{path: dir, files: make(map[string]*fileLog)}
+}
